@@ -1,4 +1,5 @@
 import ZenonVerif.Model.Pow
+import ZenonVerif.Gen.Spork
 /-
 C12 — plasma and proof-of-work: property theorems only.
 -/
@@ -324,5 +325,51 @@ theorem data_is_paid_for (n : Nat) (v : Nat) (hn : 0 < n) (h : basePlasmaChecked
 
 example : enoughPlasma 1000000000 0 0 21000 0 21000 = .ok 21000 := by decide
 example : enoughPlasma 1000000000 0 21000 21000 0 21000 = .notEnoughPlasma := by decide
+
+end ZV.C12
+
+namespace ZV.C12
+open ZV ZV.Pow
+
+/-! ## base cost of every embedded method (reviewed table of `Model/Pow.lean` vs the regenerated method tables) -/
+
+/-- the plasma table has the statement's values: a simple call costs 2.5, a call answered by one descendant send 3.5, by
+    two 4.5 base costs of an account block -/
+theorem plasma_table_statement :
+    2 * Gen.PT_EmbeddedSimple = 5 * Gen.AccountBlockBasePlasma ∧
+    2 * Gen.PT_EmbeddedWWithdraw = 7 * Gen.AccountBlockBasePlasma ∧
+    2 * Gen.PT_EmbeddedWDoubleWithdraw = 9 * Gen.AccountBlockBasePlasma ∧
+    Gen.PT_TxPlasma = Gen.AccountBlockBasePlasma ∧ Gen.PT_TxDataPlasma = Gen.ABByteDataPlasma := by decide
+
+/-- TOTAL COVERAGE: the reviewed table names exactly the (contract, method) pairs that the real `GetEmbeddedMethod` resolves
+    under at least one of the 8 spork regimes (regenerated on every run): a method that is added to a contract later - or
+    renamed, or removed - fails this theorem until the table in `Model/Pow.lean` has been reviewed -/
+theorem method_costs_every_method_reviewed : reviewedClasses.map (·.1) = Gen.methodNames := by decide +kernel
+
+/-- under every spork regime the real `GetPlasma` of every resolved method (regenerated rows) is the cost of the method's
+    REVIEWED kind: a withdraw method priced as a simple call (or any other slip of a method's price) fails here -/
+theorem method_costs_as_reviewed : Gen.methodTable.all (rowAsReviewed Gen.methodNames) = true := by decide +kernel
+
+/-- a method that answers with descendant sends is never cheaper than a simple call + one base cost per answer -/
+theorem class_cost_by_answers (acc : Bool) :
+    classCost acc .withdraw = classCost acc .simple + Gen.AccountBlockBasePlasma ∧
+    classCost acc .doubleWithdraw = classCost acc .simple + 2 * Gen.AccountBlockBasePlasma ∧
+    classCost acc .simple ≤ classCost acc .reward ∧ classCost acc .withdraw ≤ classCost acc .twoSimple := by
+  cases acc <;> decide
+
+/-- a call is paid iff its total plasma reaches the reviewed cost (what the driver answers on `plasma-call` lines) -/
+theorem method_call_paid_iff (regime : Nat) (name : String) (total c : Nat) (h : reviewedCost regime name = some c) :
+    methodCallPaid regime name total = some (decide (c ≤ total)) := by
+  simp [methodCallPaid, h]
+
+/-- the seeded family in one instance: CancelFuse, CancelStake, Revoke, WithdrawQsr, Reclaim, Unlock are withdraw methods
+    under every regime -/
+theorem withdraw_methods (regime : Nat) :
+    ∀ n ∈ ["plasma.CancelFuse", "stake.Cancel", "pillar.Revoke", "pillar.WithdrawQsr", "sentinel.WithdrawQsr",
+           "htlc.Reclaim", "htlc.Unlock", "liquidity.CancelLiquidityStake", "token.Mint", "token.IssueToken"],
+      reviewedCost regime n = some Gen.PT_EmbeddedWWithdraw := by
+  intro n hn
+  simp only [List.mem_cons, List.mem_nil_iff, or_false] at hn
+  rcases hn with h | h | h | h | h | h | h | h | h | h <;> subst h <;> rfl
 
 end ZV.C12
